@@ -286,7 +286,9 @@ mlo_hi = (0.5, 2.5)
 
 
 def scene_sphere(xhi=30.0):
-    return st.fixed_dictionaries({"kind": st.just("sphere"), "s": sphere_dimless(0.05, xhi), "pl": _pl_above, "th": _mie_theory()})
+    return st.fixed_dictionaries({"kind": st.just("sphere"), "s": sphere_dimless(0.05, xhi), "pl": _pl_above, "th": _mie_theory(),
+                                  # the radius as a numpy scalar of another width (an element of a float32 array of radii)
+                                  "rdt": st.sampled_from([None, None, None, None, "float32", "float16", "float64"])})
 
 
 def scene_layered(xhi=30.0):
@@ -391,12 +393,16 @@ def build_scene(sc, o, det, scale=1.0):
 
     if kind == "sphere":
         r = sc["s"]["x"] / k
+        r_arg = None
+        if sc.get("rdt"):
+            r_arg = getattr(np, sc["rdt"])(r)
+            r = float(r_arg)          # the value the scalar holds; everything else is derived from it
         if "kz" in pl:
             wx = max(xmax - xmin, 2 * unit); wy = max(ymax - ymin, 2 * unit)
             c = [xmin + pl["fx"] * wx, ymin + pl["fy"] * wy, zmax + pl["kz"] / k]
         else:
             c = place(pl, det, unit, r, k)
-        s = Sphere(n=cidx(sc["s"]["m"]), r=r, center=tuple(c))
+        s = Sphere(n=cidx(sc["s"]["m"]), r=r if r_arg is None else r_arg, center=tuple(c))
         return s, theory, {"centers": [c], "radii": [r]}
     if kind == "layered":
         nl = len(sc["fr"])
